@@ -415,8 +415,10 @@ func (s *session) continueUntilWait(sprint *sprint, currentRun flows.Run, node f
 			numNewSteps++
 
 			if numNewSteps > s.engine.Options().MaxStepsPerSprint {
-				// we've hit the step limit - usually a sign of a loop
-				failRun(sprint, currentRun, step, fmt.Errorf("reached maximum number of steps per sprint (%d)", s.engine.Options().MaxStepsPerSprint))
+				// we've hit the step limit - usually a sign of a loop.. note that the current run might be a newly
+				// created child which hasn't visited a node yet, so use its own last step if it has one
+				lastStep, _, _ := currentRun.PathLocation()
+				failRun(sprint, currentRun, lastStep, fmt.Errorf("reached maximum number of steps per sprint (%d)", s.engine.Options().MaxStepsPerSprint))
 			} else {
 				node = currentRun.Flow().GetNode(destination)
 				if node == nil {
